@@ -60,9 +60,9 @@ def run(ctx):
         f = ctx.fn(key)
         if not f:
             continue
-        T = tpl.Templates(f)
         found = 0
-        for s in T.root_streams():
+        # the generator and the private helpers it may have been cut into (one per arm kind, say)
+        for T, s in [(T_, s_) for g_ in ctx.generator_group(f) for T_ in [tpl.Templates(g_)] for s_ in T_.root_streams()]:
             toks = T.stream_tokens(s, locals_too=True)
             comps = [(classify(tk), tk) for tk in toks]
             seq = [c for c, tk in comps if c]
